@@ -4,7 +4,7 @@ EXTENDS Resolve, Sequences, TLC, Json
 VARIABLE done
 GInit == done = FALSE /\ regs = {} /\ q = [kind |-> "PYRO", target |-> "A", name |-> "-", tags |-> {}, where |-> "default", delay |-> 0]
 GNext == /\ ~done /\ done' = TRUE /\ UNCHANGED <<regs, q>>
-         /\ \A R \in {S \in SUBSET Regs : Cardinality(S) <= 2 /\ \A a, b \in S : (a.ns = b.ns /\ a.name = b.name) => a = b} :
+         /\ \A R \in SmallRegSets :
               \A x \in Queries :
                  \* keep the cases in which the registrations matter to the query, and a few that do not
                  ((x.kind = "PYRO" /\ R = {}) \/ (x.kind # "PYRO" /\ (R # {} \/ x.delay = 0)))
